@@ -186,6 +186,14 @@ def run_build(ctx, rng, pool, root, assign, out_state, out_fmt, lua_from_file, r
     prev_label = None
     prev_rows = None
     exists = out_state != 'absent'
+    if not exists and rng.random() < 0.5:
+        # OUT does not exist, a cart of the same name in the OTHER format does: it is another file (and stays what it is)
+        sib = os.path.join(root, outbase + ('.p8.png' if out_fmt == 'p8' else '.p8'))
+        sregions, _ = carts.random_regions(rng, 'uniform')
+        sdata = (rc.write_p8png(sregions, rc.raw_code_area(b'sibling=1\n'), 8) if out_fmt == 'p8' else rc.write_p8(sregions, b'sibling=1\n', version=8))
+        with open(sib, 'wb') as fh:
+            fh.write(sdata)
+        ctx.feature('same_name_in_other_format_next_to_absent_out')
     if exists:
         pregions, pcode = write_out_state(rng, out_state, out)
         prev = dict(pregions, lua=pcode)
@@ -550,6 +558,8 @@ def gates(m, tier):
         for ch in CHOICES:
             if f.get('%s:%s' % (sec, ch), 0) < 3 and not (sec == 'lua' and ch in ('p8', 'png') and f.get('lua:luafile', 0) >= 3 and False):
                 missed.append('%s:%s seen %d times' % (sec, ch, f.get('%s:%s' % (sec, ch), 0)))
+    if f.get('same_name_in_other_format_next_to_absent_out', 0) < 3:
+        missed.append('absent OUT with a cart of the same name in the other format: %d' % f.get('same_name_in_other_format_next_to_absent_out', 0))
     if f.get('lua:luafile', 0) < 3:
         missed.append('lua from a .lua file: %d' % f.get('lua:luafile', 0))
     for s in OUT_STATES:
